@@ -11,6 +11,9 @@ C07 — line-protocol driver of the models (core only).  One op per line, one an
   float <slen> <glen|x> <bits…>  → ok <hex bytes> | err        (Float.Encoding; float64 bit patterns, hex;
                                                                  glen = x: the gorilla encoder refuses the block)
   floatdec <hex bytes>           → vals <bits…> | err          (Float.Decoding; null / same / RLE modes)
+  wal <stale> <data> <tbl>       → recs <ty>:<payload> … eof   (replayWalFile loop over `data`, the reader's pooled
+                                   buffer holding `stale`; tbl = comp:payload:rowsok,… is the snappy /
+                                   row-unmarshal oracle observed by the harness; `-` = empty)
   booldec <hex bytes>            → bits <0/1 string | -> | err (Boolean.Decoding)
 
 `zlen` is the observed length of the zstd (snappy, …) payload for the block's raw bytes: the
@@ -21,6 +24,7 @@ import OG.C07.IntBlock
 import OG.C07.TimeBlock
 import OG.C07.Bool
 import OG.C07.FloatFrame
+import OG.C07.Wal
 
 namespace OG.C07
 
@@ -159,6 +163,24 @@ def stepFloat (slen : Nat) (glen : Option Nat) (vs : List W) : String :=
       then showFrame 1 bs else showBytes bs
     | [] => showBytes bs
 
+/-- oracle table of a `wal` op: compressed body ↦ (payload, rows unmarshal ok). -/
+def parseWalTbl (s : String) : Option (List (Bytes × Bytes × Bool)) :=
+  if s == "-" then some []
+  else (s.splitOn ",").mapM fun e =>
+    match e.splitOn ":" with
+    | [c, p, f] => do
+      let c ← hexBytes? c
+      let p ← hexBytes? p
+      if f == "1" then some (c, p, true) else if f == "0" then some (c, p, false) else none
+    | _ => none
+
+def stepWal (stale data : Bytes) (tbl : List (Bytes × Bytes × Bool)) : String :=
+  let unsnappy := fun (c : Bytes) => (tbl.find? fun e => e.1 == c).map (·.2.1)
+  let rowsOK := fun (p : Bytes) => ((tbl.find? fun e => e.2.1 == p).map (·.2.2)).getD false
+  let recs := walReplay walCfgNow unsnappy rowsOK (data.length + 1) stale data
+  recs.foldl (fun acc (ty, body) => acc ++ toString ty ++ ":" ++ (if body.isEmpty then "-" else bytesHex body) ++ " ")
+    "recs " ++ "eof"
+
 def step (line : String) : String :=
   let (op, rest) := splitOp line
   match op with
@@ -223,6 +245,13 @@ def step (line : String) : String :=
       match decodeFloat (fun _ => none) (fun _ => none) bs with
       | none => "err"
       | some xs => showVals "vals" (xs.map (·.toNat))
+  | "wal" =>
+    match rest.splitOn " " with
+    | [st, da, tb] =>
+      match hexBytes? st, hexBytes? da, parseWalTbl tb with
+      | some st, some da, some tb => stepWal st da tb
+      | _, _, _ => "bad-op"
+    | _ => "bad-op"
   | "bool" =>
     if rest == "-" then showBytes (encodeBool [])
     else if rest.any (fun c => c ≠ '0' ∧ c ≠ '1') then "bad-op"
